@@ -128,3 +128,14 @@ def any_sym(x):
     if isinstance(x, dict):
         return any(any_sym(y) for y in x.values())
     return False
+
+
+def witness(cond):
+    """model of (path AND cond) or None; cond: bool | z3 BoolRef"""
+    if cond is False:
+        return None
+    if cond is True:
+        return core.RUN.model() if core.RUN is not None else True
+    if core.RUN.feasible(cond):
+        return core.RUN.solver.model()
+    return None
